@@ -39,7 +39,7 @@ Definition breaks_rename (w : world) (src : res) (newn : N) (m : pymod) : bool :
   breaks (map (resolve_ref w m) (m_refs m)) (map (resolve_ref w2 m') (m_refs m')) (move_obj (rename_res src newn)).
 
 (* the code once both MoveModule repairs are in *)
-Definition repaired : variant := {| v_relctx := true; v_rootfrom := true |}.
+Definition repaired : variant := {| v_relctx := true; v_rootfrom := true; v_case3abs := false |}.
 
 (* project: packages a (with global g), c ; modules a/b.py {f}, a/t.py {f} *)
 Definition w1 : world :=
